@@ -279,7 +279,7 @@ theorem indexErrors_nil_iff (T : ScopeTable) (spec : ColSpec) (D : Frame)
   unfold indexErrors Spec.indexSat
   match h : D.index with
   | [l] =>
-    simp only [List.cons.injEq, and_true, exists_eq_left']
+    simp only [List.cons.injEq, and_true, exists_eq_left', relabel, List.map_eq_nil_iff]
     exact fieldErrors_nil_iff T .index spec l.name l.dtype l.vals (hfit l (by simp [h]))
       (hK l (by simp [h]))
   | [] => simp
